@@ -56,6 +56,8 @@ func (s Sem) toJSON() map[string]any {
 	}
 }
 
+var starSpell int
+
 var safelistedMethods = []string{"GET", "HEAD", "POST"}
 var normalisable = map[string]bool{"DELETE": true, "GET": true, "HEAD": true, "OPTIONS": true, "POST": true, "PUT": true}
 var safelistedRespHdrs = []string{"cache-control", "content-language", "content-length", "content-type", "expires", "last-modified", "pragma"}
@@ -139,8 +141,11 @@ func (s Sem) spell(rng *rand.Rand) *cors.Config {
 		if s.HAuth {
 			c.RequestHeaders = append(c.RequestHeaders, randCase(rng, "authorization"))
 		}
-		if rng.Intn(2) == 0 {
+		if rng.Intn(4) != 0 { // discrete names next to `*` (before and after it, through the shuffle below): covered by it
 			c.RequestHeaders = append(c.RequestHeaders, randCase(rng, "x-listed-next-to-star"))
+			if rng.Intn(2) == 0 {
+				c.RequestHeaders = append(c.RequestHeaders, randCase(rng, "x-api-key"), randCase(rng, "x-tenant"))
+			}
 		}
 	}
 	if len(c.RequestHeaders) > 0 && rng.Intn(4) == 0 {
@@ -149,6 +154,26 @@ func (s Sem) spell(rng *rand.Rand) *cors.Config {
 	rng.Shuffle(len(c.RequestHeaders), func(i, j int) {
 		c.RequestHeaders[i], c.RequestHeaders[j] = c.RequestHeaders[j], c.RequestHeaders[i]
 	})
+	if s.HStar {
+		// the position of `*` alternates deterministically (with the seed's parity: the shards of a check cover both): LAST -
+		// every discrete name, `authorization` included, stands before it - and FIRST
+		starSpell++
+		var rest []string
+		for _, n := range c.RequestHeaders {
+			if n != "*" {
+				rest = append(rest, n)
+			}
+		}
+		if (starSpell+int(seedFromEnv()))%2 == 0 {
+			c.RequestHeaders = append(rest, "*")
+		} else {
+			c.RequestHeaders = append([]string{"*"}, rest...)
+		}
+		if rng.Intn(4) != 0 {
+			// discrete names on BOTH sides of `*`: the wildcard covers them wherever they stand
+			c.RequestHeaders = append(append([]string{randCase(rng, "x-before-star")}, c.RequestHeaders...), randCase(rng, "x-after-star"))
+		}
+	}
 
 	c.MaxAgeInSeconds = s.MaxAge
 	for _, n := range s.Expose {
@@ -273,7 +298,7 @@ func serve(m *cors.Middleware, r *http.Request, inner http.Handler) served {
 			w2.WriteHeader(200)
 		}
 	})
-	m.Wrap(spy).ServeHTTP(w, r)
+	handlerFor(m, spy).ServeHTTP(w, r) // the handler wrapped when the middleware was created, if any (serve.go)
 	s.w = w
 	return s
 }
